@@ -63,6 +63,10 @@ func resultPool() []string {
 		"er/p" + hx("ctx") + ">u" + hx("boom") + "/" + outsLack,
 		"er/u" + hx("fields") + "/" + outsMixed,
 		"pn/l" + hx("boom"),
+		// the handler reports the error of its (per-call) context, plain and wrapped
+		"er/d-/" + outsNone,
+		"er/p" + hx("ctx") + ">d-/" + outsLack,
+		"er/f" + hx("ctx") + ">k-/" + outsNone,
 	}
 }
 
@@ -124,6 +128,9 @@ func scriptPool(rs []string) []string {
 		rs[16] + ";" + SO,                   // an error of a non-comparable type, then success
 		rs[19] + ";" + rs[17] + ";" + S,     // a panic with a slice value, then a wrapped slice-typed error
 		rs[18],                              // always fails with an unlisted slice-typed error
+		rs[20],                              // every attempt ends at its deadline: context.DeadlineExceeded
+		rs[21] + ";" + rs[22] + ";" + rs[20] + ";" + SO, // wrapped context errors, success on the fourth attempt
+		rs[20] + ";" + rs[20] + ";" + S,
 	}
 }
 
